@@ -68,7 +68,7 @@ func toBatches(chains []gen.Chain, per int) []*gen.Batch {
 // soundness-preserving configuration.
 func C01(tier string) {
 	run := core.NewRun("C01", tier)
-	links := gen.AllLinks(nil, []string{"conc"})
+	links := gen.AllLinks(nil, []string{"conc", "guard"})
 	var chains []gen.Chain
 	cfgs := StdCfgs(false)
 	if tier == "thorough" {
